@@ -27,7 +27,7 @@ theorem rnd_days (r : Rule) (p : Inst) (nti j : Nat) (hp : WfInst p) (hy : 1901 
   · rw [← ndom_eq hv.1 hv.2.1 (Or.inl (by omega)) hy2]; exact hv.2.2.2
 
 /-- what the day loop looks at is an instance of the rule -/
-theorem dly_inst (r : Rule) (p : Inst) (nti : Nat) (hr : WfRule r) (hp : WfInst p) (hs : SeedOk r p) (hy : 1901 ≤ p.y)
+theorem dly_inst (r : Rule) (p : Inst) (nti : Nat) (hr : WfRule r) (hp : WfInst p) (hy : 1901 ≤ p.y)
     (j y m d : Nat) (hc : Carry p.y p.m (rnd (dctx r p nti) j) y m d) (hy2 : y ≤ 2099)
     (hsk : dlySkipDay (dctx r p nti) m d (rndW (dctx r p nti) j) (getNdom y m) = false)
     (t : Tix) (ht : t ∈ (makeEnum p r).timesIx) :
@@ -40,7 +40,7 @@ theorem dly_inst (r : Rule) (p : Inst) (nti : Nat) (hr : WfRule r) (hp : WfInst 
   have hyy := carry_year hc hpm.1 hpm.2 hD
   have hnd := ndom_eq hv.1 hv.2.1 (Or.inl (by omega)) hy2
   obtain ⟨m1, m2, m3⟩ := mem_timesIx ht
-  obtain ⟨hk, hte⟩ := exp_of_enum (x := ⟨y, m, d, t.2.1, t.2.2.1, t.2.2.2, p.ms⟩) hr hp hs m1 m2 m3
+  obtain ⟨hk, hte⟩ := exp_of_enum (x := ⟨y, m, d, t.2.1, t.2.2.1, t.2.2.2, p.ms⟩) hr hp m1 m2 m3
   have hw : rndW (dctx r p nti) j = wdayOf (days y m d) := by
     unfold rndW; rw [hdays]; show wdayOf (dayOf p + ((j * r.inter : Nat) : Int)) = _; rw [Int.natCast_mul]
   have hwr := wdayOf_range (days y m d)
@@ -52,7 +52,7 @@ theorem dly_inst (r : Rule) (p : Inst) (nti : Nat) (hr : WfRule r) (hp : WfInst 
   rw [← hnd]; exact c
 
 /-- every instance is a day some round looks at and lets pass, with a time of the enumeration -/
-theorem dly_inst_conv (r : Rule) (p : Inst) (nti : Nat) (hr : WfRule r) (hp : WfInst p) (hs : SeedOk r p)
+theorem dly_inst_conv (r : Rule) (p : Inst) (nti : Nat) (hr : WfRule r) (hp : WfInst p)
     (hy : 1901 ≤ p.y) (x : Inst) (hx : DailyInst r p x) (hxy : x.y ≤ 2099) :
     ∃ k, Carry p.y p.m (rnd (dctx r p nti) k) x.y x.m x.d ∧
       dlySkipDay (dctx r p nti) x.m x.d (rndW (dctx r p nti) k) (getNdom x.y x.m) = false ∧
@@ -86,7 +86,7 @@ theorem dly_inst_conv (r : Rule) (p : Inst) (nti : Nat) (hr : WfRule r) (hp : Wf
     rw [hw]
     refine (dlySkipDay_iff r p nti hr hv hwr.1 hwr.2).2 ⟨d3, d1, ?_⟩
     rw [hnd]; exact d2
-  · obtain ⟨a, b, c⟩ := enum_of_exp hp hs s6 hte
+  · obtain ⟨a, b, c⟩ := enum_of_exp hp s6 hte
     obtain ⟨iH, aH⟩ := mem_getElem? a
     obtain ⟨iM, aM⟩ := mem_getElem? b
     obtain ⟨iS, aS⟩ := mem_getElem? c
